@@ -83,7 +83,7 @@ def fmt_float(vm, x):
     if getattr(vm, 'str_mode', 'opaque') == 'bounded':
         h = getattr(vm, 'fmt_f64_hook', None)
         if h is not None: return h(vm, x)
-        raise Unmodelled('formatting a symbolic f64 into a bounded string')
+        # no hook: the rendering stays an opaque term; concatenation with bounded text degrades to an opaque string
     return SymStr(fmt_f64(x))
 
 
